@@ -79,7 +79,9 @@ pub enum Verdict {
 }
 
 fn is_ws(c: u8) -> bool {
-    c == b' ' || c == b'\t'
+    // 488.2 white space representatives: SP, TAB, CR, FF (NL is the terminator; other control
+    // bytes are white space in 488.2 too but are left unspecified here)
+    c == b' ' || c == b'\t' || c == b'\r' || c == 0x0c
 }
 fn is_mn(c: u8) -> bool {
     c.is_ascii_alphanumeric() || c == b'_'
@@ -231,7 +233,8 @@ impl<'a> P<'a> {
                 self.i += 1;
                 self.push(Tok::Query)?;
                 match self.peek() {
-                    None | Some(b';') | Some(b'\n') | Some(b' ') | Some(b'\t') => {}
+                    None | Some(b';') | Some(b'\n') => {}
+                    Some(x) if is_ws(x) => {}
                     Some(x) if !x.is_ascii() => return rej(Class::NonAscii),
                     _ => return uns("byte directly after `?`"),
                 }
